@@ -44,11 +44,14 @@ class DEDeme(AbstractDeme):
     def run_metaepoch(self, tree) -> None:
         epoch_counter = 0
         metaepoch_generations = []
+        # Each generation is bred from the one before it, also inside a metaepoch of several generations.
+        parents = self.current_population
         while epoch_counter < self._generations:
-            offspring = self._de.run(self.current_population)
+            offspring = self._de.run(parents)
 
             epoch_counter += 1
             metaepoch_generations.append(offspring)
+            parents = offspring
 
             if tree._gsc(tree):
                 self._history.append(metaepoch_generations)
